@@ -132,6 +132,26 @@ def run_job(job, rec):
         rec.check((not isinstance(mo, Raised)) and np.shape(mo) == (npar,) and bool(np.abs(np.asarray(mo) - pm).max() <= tol_mean),
                   "mean-only-differs", lambda: f"calculate_posterior_mean differs from the full path: {mo!r}", rec.context)
 
+        # ---- history: the same theta array modified in place between calls
+        if c % 2 == 0:
+            th2 = theta.copy()
+            guarded(inv.calculate_posterior, th2)
+            guarded(inv.marginal_likelihood, th2)
+            th2[theta_m.size] += 0.3
+            th2[0] += 0.1 * y_scale
+            K2 = R.data_cov(spec, pos, th2[theta_m.size:]) + np.diag(jit) * np.exp(0.6)
+            m2 = R.mean(mean_name, pos, th2[: theta_m.size], pos)
+            J2 = A @ K2 @ A.T + S
+            if max(np.linalg.cond(J2), np.linalg.cond(np.eye(npar) + K2 @ W)) < 1e7:
+                ref_m2 = m2 + K2 @ A.T @ np.linalg.solve(J2, y - A @ m2)
+                o2 = guarded(inv.calculate_posterior, th2)
+                mo2 = guarded(inv.calculate_posterior_mean, th2)
+                rec.count("in_place_theta_updates")
+                tol2 = (fac + 1e-8) * (np.abs(m2).max() + np.abs(ref_m2).max() + 1e-300) * 10
+                ok2 = (not isinstance(o2, Raised)) and (not isinstance(mo2, Raised)) and bool(np.abs(np.asarray(o2[0]) - ref_m2).max() <= tol2) and bool(np.abs(np.asarray(mo2) - ref_m2).max() <= tol2)
+                rec.check(ok2, "stale-after-in-place-update",
+                          lambda: f"{desc}: posterior mean after an in-place change of the theta array differs from the closed form at the new values", rec.context)
+
         # ---- evidence and its gradient
         ref_ev = R.mvn_logpdf_no_const(y, A @ m, J)
         escale = abs(resid @ sol) + abs(np.linalg.slogdet(J)[1]) + nd
